@@ -388,6 +388,10 @@ Definition handler_ok (h : string * list string) : bool :=
 Lemma handler_table_ok : forallb handler_ok handlers = true.
 Proof. vm_compute. reflexivity. Qed.
 
+(* the model's Ok outcome covers every etcd latency below the time the bootstrap transaction waits: that time is the code's *)
+Lemma request_timeout_matches_code : kv_request_timeout_ns = (request_timeout_ms * 1000000)%Z.
+Proof. reflexivity. Qed.
+
 Lemma mismatched_id_refused_table_pf :
   forall h ks, In (h, ks) handlers -> exempt h = false -> exists k, In k ks /\ checks_cluster_id k = true.
 Proof.
